@@ -38,7 +38,9 @@ def Payload.encLen (p : Payload) : Nat :=
 (`len(in) > math.MaxInt16` is refused). Keys and values have 32-bit prefixes and cannot exceed
 them within the NATS payload limit. -/
 def Payload.encodable (p : Payload) : Bool :=
-  !(p.hdrs.any (fun kv => Gen.Log.putStringLenCmp.evalNat kv.1.utf8ByteSize 32767))
+  !(p.hdrs.any (fun kv => Gen.Log.putStringLenCmp.evalNat kv.1.utf8ByteSize 32767)) &&
+  -- the header count is stored in 16 bits (`PutInt16(int16(len))`, read back with `Uint16`)
+  !(Gen.Log.headerCountCmp.evalNat p.hdrs.length 65535)
 
 /-- One message as stored: the 28-byte message-set header fields plus the payload. -/
 structure Rec where
